@@ -42,6 +42,11 @@ pub fn generate(g: &mut G, _index: u64) -> Scenario {
             match g.below(12) {
                 0..=2 => {
                     let to = g.below(3) as Slot;
+                    if g.chance(1, 10) {
+                        // a lookup that its client gives up half-way (it may or may not have
+                        // spawned and registered an instance; either way there is one at most)
+                        ops.push(Op::CancelAfter { polls: g.range(1, 2) as u32, op: Box::new(Op::FromRegistry { svc, to: 6 }) });
+                    }
                     ops.push(Op::FromRegistry { svc, to });
                     ops.push(Op::Call { h: to, id: g.id(), work: vec![] });
                     if !have.contains(&to) {
@@ -347,9 +352,39 @@ pub fn check(v: &View) -> Vec<Violation> {
         .filter(|o| !o.skipped() && matches!(o.inner, Op::FromRegistry { .. } | Op::Setup { .. } | Op::Register { .. } | Op::Replace { .. } | Op::Unregister { .. } | Op::AlreadyRunning { .. } | Op::Spawn { .. }))
         .map(|o| (o.begin, o.end.unwrap_or(u64::MAX)))
         .collect();
+    // one live instance per type: without register / replace / unregister in the run, two
+    // instances that the registry spawned are never alive at the same time (whatever became of
+    // the lookups that spawned them)
+    for svc in [Tag::SvcA, Tag::SvcB] {
+        let default_aidx = if svc == Tag::SvcA { AIDX_SVC_A } else { AIDX_SVC_B };
+        let explicit = v.ops.iter().any(|o| !o.skipped() && matches!(o.inner, Op::Register { .. } | Op::Replace { .. } | Op::Unregister { .. } | Op::Spawn { .. }));
+        if explicit || v.any_fault() {
+            continue;
+        }
+        let mut lives: Vec<(u32, u64, u64)> = vec![];
+        for r in &v.out.log {
+            if let Ev::Created { inst, aidx, by_default: true } = &r.ev {
+                if *aidx == default_aidx {
+                    let dead = v.actors.values().find(|a| v.cbs_of(a).any(|c| c.inst == *inst)).and_then(|a| a.dead).unwrap_or(u64::MAX);
+                    lives.push((*inst, r.st.seq, dead));
+                }
+            }
+        }
+        crate::log::probe("c08_single_instance_checked");
+        for (i, a) in lives.iter().enumerate() {
+            for b in lives.iter().skip(i + 1) {
+                // (an instance that never ran a callback has no known end: only judge those that did)
+                let known = |x: &(u32, u64, u64)| v.actors.values().any(|t| v.cbs_of(t).any(|c| c.inst == x.0));
+                if known(a) && known(b) && a.1 < b.2 && b.1 < a.2 {
+                    out.push(violation(P, "two-live-instances", &format!("{svc:?}"), format!("instances {} (seq {}..{}) and {} (seq {}..{}) of {svc:?} were both spawned by the registry and alive at the same time, without any register / replace / unregister", a.0, a.1, a.2, b.0, b.1, b.2)));
+                }
+            }
+        }
+    }
     for svc in [Tag::SvcA, Tag::SvcB] {
         let default_aidx = if svc == Tag::SvcA { AIDX_SVC_A } else { AIDX_SVC_B };
         let mut hist: Vec<HOp> = vec![];
+        let mut optional: Vec<HOp> = vec![];
         let mut unknown_self = false;
         for rec in v.ops.iter().filter(|o| !o.skipped() && o.client != SETUP_CLIENT) {
             if svc_of(rec.inner, v, rec) != Some(svc) {
@@ -389,9 +424,16 @@ pub fn check(v: &View) -> Vec<Violation> {
                 (Op::AlreadyRunning { .. }, Res::OptBool(b)) => Kind::AlreadyRunning { res: *b },
                 _ => continue,
             };
-            hist.push(HOp { inv: rec.begin, ret, kind, what: format!("c{}#{} {:?} -> {:?}", rec.client, rec.idx, rec.inner, rec.res.unwrap()) });
+            let hop = HOp { inv: rec.begin, ret, kind, what: format!("c{}#{} {:?} -> {:?}", rec.client, rec.idx, rec.inner, rec.res.unwrap()) };
+            if rec.abandoned() {
+                // an operation its client gave up half-way is a pending operation: it may have
+                // taken effect at any moment after its invocation, or not at all
+                optional.push(HOp { ret: u64::MAX, ..hop });
+            } else {
+                hist.push(hop);
+            }
         }
-        if hist.is_empty() || unknown_self {
+        if hist.is_empty() || unknown_self || optional.len() > 3 {
             continue;
         }
         // instances of this service type and their deaths
@@ -434,7 +476,31 @@ pub fn check(v: &View) -> Vec<Violation> {
             crate::log::probe("c08_register_rejected");
         }
         let mut nodes = 0u64;
-        match linearizable(&hist, &defaults, &mut nodes, &busy) {
+        let verdict = {
+            let mut verdict = Some(false);
+            for mask in 0..(1u32 << optional.len()) {
+                let mut h = hist.clone();
+                for (i, o) in optional.iter().enumerate() {
+                    if mask & (1 << i) != 0 {
+                        h.push(o.clone());
+                    }
+                }
+                h.sort_by_key(|x| x.inv);
+                match linearizable(&h, &defaults, &mut nodes, &busy) {
+                    Some(true) => {
+                        verdict = Some(true);
+                        break;
+                    }
+                    None => verdict = None,
+                    Some(false) => {}
+                }
+            }
+            verdict
+        };
+        if !optional.is_empty() {
+            crate::log::probe("c08_abandoned_lookup");
+        }
+        match verdict {
             Some(true) => {
                 crate::log::probe("c08_linearized");
                 if defaults.len() >= 2 {
